@@ -279,6 +279,8 @@ pub struct SqlFacts {
     pub non_finite_float: bool,
     /// a string default of the model contains a single quote
     pub quote_in_string_default: bool,
+    /// a filter names the alias under which a system field is selected
+    pub filter_on_system_alias: bool,
 }
 
 /// identifiers of a request text (anything made of letters, digits, '_' and '.')
@@ -403,10 +405,29 @@ pub fn classify_sql(kind: &str, msg: &str, facts: &SqlFacts) -> String {
     if near.as_deref() == Some("OFFSET") {
         return "sql:skip-without-first".to_string();
     }
+    if msg.contains("no such column: sys_peer") || msg.contains("no such column: sys_room") {
+        return "sql:filter-on-system-reference-field".to_string();
+    }
+    // "<literal>AND": a filter on a literal followed by a json filter
+    if let Some(tok) = &near {
+        if (tok.ends_with("AND") && tok.len() > 3 && msg.contains("unrecognized token")) || (tok == "_json" && msg.contains("syntax error")) {
+            return "sql:literal-filter-then-json-filter-missing-space".to_string();
+        }
+    }
     if let Some(tok) = &near {
         let tl = tok.to_lowercase();
         if is_sql_keyword(&tl) && facts.alias_candidates.iter().any(|a| a.to_lowercase() == tl) {
             return "sql:reserved-word-as-table-alias".to_string();
+        }
+        if (tl == "." || tl == "(") && facts.alias_candidates.iter().any(|a| is_sql_keyword(a)) {
+            return "sql:reserved-word-as-table-alias".to_string();
+        }
+        if facts
+            .alias_candidates
+            .iter()
+            .any(|a| a.chars().next().map(|c| c.is_ascii_digit()).unwrap_or(false) && a.contains(tok.as_str()) && tok.len() > 1)
+        {
+            return "sql:digit-first-identifier-as-table-alias".to_string();
         }
         if tok.chars().next().map(|c| c.is_ascii_digit()).unwrap_or(false)
             && facts
@@ -416,6 +437,12 @@ pub fn classify_sql(kind: &str, msg: &str, facts: &SqlFacts) -> String {
         {
             return "sql:digit-first-identifier-as-table-alias".to_string();
         }
+    }
+    if msg.starts_with("ambiguous column name") {
+        return "sql:ambiguous-system-column-in-sub-entity".to_string();
+    }
+    if facts.filter_on_system_alias && (msg.contains("no such column") || near.is_some()) {
+        return "sql:filter-on-alias-of-system-field".to_string();
     }
     if msg.contains("no such column: inf") || msg.contains("no such column: NaN") || msg.contains("no such column: -inf") {
         return "sql:non-finite-float-literal".to_string();
